@@ -4,14 +4,15 @@ import prelude
 from check import canon_exc, hx
 
 MANIFEST = {
-    "text": "Lean theorems: INTEGER writer/reader are inverse for every integer (readLE_packLE), positive encodings are minimal, TLV header round trip for every well-formed tag and every content length (short/long form) with exact consumption, base-128 numbers, OCTET STRING/BOOLEAN round trips; model tied to _asn1.py by the TLV-threshold kernel regenerated from source and by correspondence of every _pack_asn1_*/_read_asn1_* (exhaustive over all ≤2-octet integers quick, all ≤3-octet integers thorough)",
+    "text": "Lean theorems: INTEGER writer/reader are inverse for every integer (readLE_packLE), positive encodings are minimal, TLV header round trip for every well-formed tag and every content length (short/long form) with exact consumption, base-128 numbers, OCTET STRING/BOOLEAN round trips; model tied to _asn1.py by the TLV-threshold kernel regenerated from source and by correspondence of every _pack_asn1_*/_read_asn1_* (exhaustive over all ≤2-octet integers quick, all ≤3-octet integers thorough); read_write / readList_write: for ARBITRARILY NESTED trees of integers, octet / UTF-8 strings, OIDs, sequences and sets (mutual structural induction), the typed reader calls that mirror the schema return the tree with exactly the encoded octets consumed, and concatenated values come back in order with nothing left over; write_is_writer ties the tree encoder to the writer functions",
     "note": "Trusted: Lean kernel; hand-written model of _asn1.py (tie is differential outside the extracted kernel); content lengths < 256^127; UTF-8/str/int codecs are CPython's",
     "technique": "Lean 4 proof (induction on digit lists) over a hand-written model + kernel extraction + exhaustive/differential correspondence",
 }
+MODULES = ["DpapiNg.Properties.C07", "DpapiNg.Properties.C07Tree"]
 THEOREMS = ["DpapiNg.C07.readLE_packLE", "DpapiNg.C07.packInteger_content", "DpapiNg.C07.packInteger_minimal_pos",
             "DpapiNg.C07.readHeader_packTLV", "DpapiNg.C07.lengthOctets_minimal", "DpapiNg.C07.readInteger_packInteger",
             "DpapiNg.C07.octetNumber_roundtrip", "DpapiNg.C07.readOctetString_pack", "DpapiNg.C07.readBoolean_pack",
-            "DpapiNg.C07.validateTag_any", "DpapiNg.C07.readOid_packOid"]
+            "DpapiNg.C07.validateTag_any", "DpapiNg.C07.readOid_packOid", "DpapiNg.C07.read_write", "DpapiNg.C07.readList_write", "DpapiNg.C07.write_is_writer"]
 RULE = ("integers: exhaustive over all values of ≤2 content octets (quick) / ≤3 (thorough), ±2^k±1 up to k=4096; tags: class × number × constructed; "
         "content lengths around 2^7, 2^8, 2^16 (2^24 thorough); OIDs with small and huge arcs; malformed reader inputs (truncations, bit flips, random). "
         "Each case runs the real _asn1 function and the model driver; distinct by op line")
